@@ -9,9 +9,9 @@ def sh(cmd, timeout=3000):
     return p.returncode, p.stdout
 names = sorted(d for d in os.listdir(f"{V}/seeded") if os.path.exists(f"{V}/seeded/{d}/patch.diff"))
 if len(sys.argv) > 1:
-    names = [n for n in names if n in sys.argv[1:] or n.split("-")[0] in sys.argv[1:]]
+    names = [n for n in names if n in sys.argv[1:] or n.split("-")[0] in sys.argv[1:] or any(n.startswith(a) for a in sys.argv[1:])]
 for n in names:
-    pid = n.split("-")[0]
+    pid = [t for t in n.split("-") if t.startswith("C")][0]
     mp = f"{V}/seeded/{n}/meta.json"
     meta = json.load(open(mp)) if os.path.exists(mp) else {}
     rc, out = sh("git -C /repo status --porcelain")
